@@ -35,8 +35,10 @@ fn main() {
 	let out_path = arg(&args, "--out").unwrap_or_else(|| "-".into());
 	let stats = arg(&args, "--stats");
 	let replay = arg(&args, "--replay");
+	set_compat(args.iter().any(|a| a == "--compat"));
 	let mut out = Out::new(&out_path);
 	out.line(&format!("P {}", yata::core::PeriodType::MAX));
+	out.line(&format!("V {}", std::mem::size_of::<yata::core::ValueType>() * 8));
 
 	if let Some(path) = replay {
 		// a replay file is a transcript (or the op part of one); re-execute every case
@@ -81,7 +83,7 @@ fn main() {
 				let filter: Vec<String> = arg(&args, "--methods")
 					.map(|s| s.split(',').map(|x| x.to_string()).collect())
 					.unwrap_or_default();
-				methods::suite(&mut out, seed, thorough, &filter)
+				methods::suite_w(&mut out, seed, thorough, &filter, args.iter().any(|a| a == "--wide"))
 			}
 			other => {
 				eprintln!("unknown suite {other}");
